@@ -130,7 +130,12 @@ func (n *Node) encode() []byte {
 		if n.Cons {
 			out[0] |= 0x20
 		}
-		out = append(out, byte(n.Tag&0x7f))
+		// high-tag-number form: base 128, most significant group first
+		groups := []byte{byte(n.Tag & 0x7f)}
+		for v := n.Tag >> 7; v > 0; v >>= 7 {
+			groups = append([]byte{byte(v&0x7f) | 0x80}, groups...)
+		}
+		out = append(out, groups...)
 	}
 	l := len(content)
 	switch n.LenMod {
@@ -241,7 +246,9 @@ func mutationsAt(root *Node, p path) []mutation {
 			ms = append(ms, mutation{fmt.Sprintf("class%s:%d", ps, cl), func(r *Node) bool { n, _, _ := get(r); n.Cls = cl; return true }})
 		}
 	}
-	for _, tg := range []int{0, 1, 2, 3, 4, 5, 6, 8, 9, 10, 12, 16, 17, 19, 22, 23, 24, 30, 31} {
+	// 256+t, 512+t, 2^14+t, 2^28+t: tag numbers that are a supported one modulo 2^8
+	for _, tg := range []int{0, 1, 2, 3, 4, 5, 6, 8, 9, 10, 12, 16, 17, 19, 22, 23, 24, 30, 31,
+		256 + target.Tag, 512 + target.Tag, 1<<14 + target.Tag, 1<<28 + target.Tag, 128 + target.Tag} {
 		tg := tg
 		if tg != target.Tag {
 			ms = append(ms, mutation{fmt.Sprintf("tag%s:%d", ps, tg), func(r *Node) bool { n, _, _ := get(r); n.Tag = tg; return true }})
